@@ -43,7 +43,9 @@ mkdir -p "$BIN" "$W/tmp"
   fi
   # free-running race-detector pass (C15, C17): built with -race; skipped if that build is not possible
   rm -f "$BIN/jdmc-race"
-  if [ "$REPO" = "/repo" ]; then
+  if [ -n "${JDMC_SKIP_RACE:-}" ]; then
+    : # (seedtest.sh sets this for checks that have no concurrency leg: the -race build costs about 30 s per tree)
+  elif [ "$REPO" = "/repo" ]; then
     go build -race -o "$BIN/jdmc-race" ./cmd/racer || echo "build.sh: -race build failed; the concurrency leg will be skipped" >&2
   else
     go build -modfile="$BIN/alt.mod" -race -o "$BIN/jdmc-race" ./cmd/racer || echo "build.sh: -race build failed; the concurrency leg will be skipped" >&2
